@@ -57,10 +57,11 @@ Theorem C17_records_roundtrip_refuted_long_name :
 Proof. exact ps_cnt_long_name_refuted. Qed.
 Print Assumptions C17_records_roundtrip_refuted_long_name.
 
-Theorem C17_records_roundtrip_refuted_empty_name : forall proto pkt rest,
-  len proto = PS_PROTO -> ps_dyn_dec (ps_dyn_enc (mkDyn proto [] pkt) ++ rest) = None.
-Proof. exact ps_dyn_empty_name_unreadable. Qed.
-Print Assumptions C17_records_roundtrip_refuted_empty_name.
+(* an empty item cannot be read back (fread(p, 0, 1, f) = 0): packets and OSCORE data must not be
+   empty; the name of a dynamic resource may be (the root resource) since /repo commit 8471219 *)
+Theorem C17_records_roundtrip_refuted_empty_item : forall l, ps_item 0 l = None.
+Proof. exact ps_item_zero. Qed.
+Print Assumptions C17_records_roundtrip_refuted_empty_item.
 
 (* ------------------------------------------------------------------ C17_atomic *)
 (* for every updater u, every buffering policy, every state in which the only write streams
